@@ -77,6 +77,7 @@ type Result struct {
 	Evals      int64            `json:"evals,omitempty"`  // evaluations inside this run (default 1)
 	Cases      []string         `json:"cases,omitempty"`  // distinct non-trivial case ids inside this run
 	Replan     *Plan            `json:"replan,omitempty"` // a smaller explicit plan that reproduces the violation
+	Slice      string           `json:"slice,omitempty"`  // "k/w/from" of the child process that executed this run
 }
 
 // Log is the event log of a run. Its hash is the run's trace hash.
